@@ -161,7 +161,7 @@ def stale_tmp(ctx, r):
 
 
 def run(ctx):
-    framework.check_facts(ctx, ctx.facts, ["with_lock", "writer_calls", "truncate_sites"])
+    framework.check_facts(ctx, ctx.facts, ["with_lock", "writer_calls", "truncate_sites", "open_sites"])
     r = gen.Rng(ctx.seed * 1000003 + 3)
     for i in range(16 if ctx.quick else 250):
         # every third script runs on a log spanning several 64 KiB blocks (the tail repair scans backwards in blocks)
